@@ -8,12 +8,20 @@
 // storeCompact (one tick of the periodic store housekeeping, kv.JobScheduler -> Store.compact),
 // reopen, crash (recover images of the operations so far).
 // Harness-owned interleavings: (1) "window": while a flusher commit is at a manifest write/sync
-// seam (version-set mutex held, next file number already read), a helper goroutine opens 1-3
-// further writers on families of the store; (2) an obsolete-file pass of the family at the
-// tableCreate seam of a writer.
+// seam (its table is closed, the version-set mutex is held, the next file number is already read,
+// the new version is not installed yet) other jobs of the store run, drawn from a menu: a helper
+// goroutine opens 1-3 further writers on families of the store; obsolete-file passes of a family
+// (the committing one or another) and reader-cache cleanups run right at the seam (they need no
+// version-set lock); a real level-0 compaction job of a family that was started before the commit
+// and is parked at a seam of its own - at its trailing obsolete-file pass (resumed at the commit's
+// seam or after the commit) or at the tableCreate seam of its first output (resumed after the
+// commit: its own commit needs the version-set mutex); (2) an obsolete-file pass of the family at
+// the tableCreate seam of a writer.
 // Oracles: reference model (live store after every operation, every recovered image = state
-// before or after the operation in flight, life after recovery), and at the tableCreate seam: no
-// table is created under a number that a referenced table or an unfinished writer still holds.
+// before or after the operation in flight, life after recovery), at the tableCreate seam: no
+// table is created under a number that a referenced table or an unfinished writer still holds, and
+// after every operation: every table referenced by the current version of a family is a file of
+// the family directory.
 package c01
 
 import (
@@ -104,10 +112,12 @@ type env struct {
 	pendingAt []int // per history operation: number of unfinished writers when it began
 
 	// harness-owned interleaving inside a commit (see windowPlan)
-	plan     *windowPlan // armed for the commit in flight (main goroutine only)
-	lastPlan *windowPlan // for cleanup
-	window   atomic.Bool // a helper goroutine is opening writers: its table seams take no image
-	hmu      sync.Mutex  // serialises the imager (store housekeeping runs a background job)
+	plan      *windowPlan              // armed for the commit in flight (main goroutine only)
+	lastPlan  *windowPlan              // for cleanup
+	window    atomic.Bool              // a helper goroutine is opening writers: its table seams take no image
+	trail     atomic.Pointer[trailJob] // compaction job running next to the commit in flight
+	lastTrail *trailJob                // for cleanup
+	hmu       sync.Mutex               // serialises the imager (store housekeeping runs a background job)
 
 	// file numbers seen at the tableCreate seam during the operation in flight
 	tracking    atomic.Bool
@@ -155,6 +165,13 @@ type windowPlan struct {
 	seamOp string
 	before bool
 	specs  []writerSpec
+	// jobs that run on the main goroutine right at the seam (they take no version-set lock): before
+	// the helper goroutine gets its time (late=false) or after it (late=true, the helper is then
+	// still waiting for the version-set mutex on the unchanged tree)
+	nested []nestedOp
+	// a compaction job of a family started before the commit and parked at a seam of its own
+	trail    *trailJob
+	hasTable bool // the commit in flight brings a new table
 
 	fired  bool
 	inside bool // the helper finished while the commit was still at the seam
@@ -171,7 +188,60 @@ func (p *windowPlan) String() string {
 	if p.before {
 		ph = "before"
 	}
-	return fmt.Sprintf("%s/%s%v", p.seamOp, ph, p.specs)
+	return fmt.Sprintf("%s/%s%v nested=%v job=%s", p.seamOp, ph, p.specs, p.nested, p.trail)
+}
+
+// nestedOp is a job of another goroutine of the store that needs no version-set lock and therefore
+// really runs while a commit sits at its manifest seam.
+type nestedOp struct {
+	kind string // "deleteObsolete" (family.deleteObsoleteFiles), "cacheCleanup" (reader cache), "jobCleanup" (resume the parked compaction job: its trailing obsolete-file pass)
+	fam  string
+	late bool
+}
+
+func (n nestedOp) String() string {
+	if n.late {
+		return n.kind + "(" + n.fam + ",late)"
+	}
+	return n.kind + "(" + n.fam + ")"
+}
+
+// trailJob is a production level-0 compaction job (Family.compact / kv.JobScheduler) of a family
+// that runs on a goroutine of its own next to a flusher commit. To own the schedule the harness
+// starts it right before Flusher.Commit and lets it run alone until it reaches the park point;
+// the main goroutine then runs the commit and resumes the job either at the manifest seam of the
+// commit (only the trailing obsolete-file pass, which takes no version-set lock) or right after
+// the commit returned. At any instant only one of the two goroutines runs.
+type trailJob struct {
+	fam        string
+	force      bool
+	parkOp     string // "listDir": the trailing obsolete-file pass of the job; "tableCreate": its first output table
+	parkBefore bool
+	atSeam     bool // resume at the commit's seam (listDir only), else after the commit returned
+
+	armed    atomic.Bool
+	parked   chan struct{}
+	resume   chan struct{}
+	done     chan struct{}
+	isParked bool
+	resumed  bool
+	inWindow bool // resumed while the commit was at its seam
+	ran      bool
+	err      error
+}
+
+func (j *trailJob) String() string {
+	if j == nil {
+		return "-"
+	}
+	ph, at := "after", "afterCommit"
+	if j.parkBefore {
+		ph = "before"
+	}
+	if j.atSeam {
+		at = "atSeam"
+	}
+	return fmt.Sprintf("compact(%s,force=%v) parked %s %s resumed %s", j.fam, j.force, ph, j.parkOp, at)
 }
 
 type createRec struct {
@@ -302,9 +372,25 @@ func (e *env) hook(op, path string, before bool) {
 			e.classes["deleteObsolete-nested-at-tableCreate"]++
 		}
 	}
+	if j := e.trail.Load(); j != nil && j.armed.Load() && op == j.parkOp && before == j.parkBefore && seamFamily(op, path) == j.fam {
+		// only the job's goroutine runs while the job is armed (the main goroutine waits in startTrail)
+		if j.armed.CompareAndSwap(true, false) {
+			close(j.parked)
+			<-j.resume
+		}
+		return
+	}
 	if p := e.plan; p != nil && !p.fired && op == p.seamOp && before == p.before {
 		e.fireWindow(p)
 	}
+}
+
+// seamFamily: the family directory a listDir / table seam works on.
+func seamFamily(op, path string) string {
+	if op == "listDir" {
+		return filepath.Base(path)
+	}
+	return filepath.Base(filepath.Dir(path))
 }
 
 func (e *env) noteCreate(path string) {
@@ -320,30 +406,140 @@ func (e *env) noteCreate(path string) {
 
 func (e *env) fireWindow(p *windowPlan) {
 	p.fired = true
-	p.done = make(chan struct{})
-	e.window.Store(true)
-	started := make(chan struct{})
-	go func() {
-		defer close(p.done)
-		close(started)
-		for _, s := range p.specs {
-			w, err := e.openWriterRaw(s)
-			if w != nil {
-				p.opened = append(p.opened, w)
+	e.runNested(p, false)
+	if len(p.specs) > 0 {
+		p.done = make(chan struct{})
+		e.window.Store(true)
+		started := make(chan struct{})
+		go func() {
+			defer close(p.done)
+			close(started)
+			for _, s := range p.specs {
+				w, err := e.openWriterRaw(s)
+				if w != nil {
+					p.opened = append(p.opened, w)
+				}
+				if err != nil {
+					p.err = err
+					return
+				}
 			}
-			if err != nil {
-				p.err = err
-				return
-			}
+		}()
+		<-started // the wait below does not include the time the scheduler needs to start the helper
+		timer := time.NewTimer(windowWait)
+		select {
+		case <-p.done:
+			p.inside = true
+		case <-timer.C:
 		}
+		timer.Stop()
+	}
+	e.runNested(p, true)
+}
+
+// runNested runs the lock-free jobs of the window on the main goroutine, which sits inside the
+// manifest seam of the commit in flight.
+func (e *env) runNested(p *windowPlan, late bool) {
+	for _, n := range p.nested {
+		if n.late != late {
+			continue
+		}
+		switch n.kind {
+		case "cacheCleanup":
+			kv.VerifCacheCleanup(e.store)
+			e.classes["window-nested-cacheCleanup"]++
+			continue
+		case "jobCleanup":
+			if j := p.trail; j != nil && j.isParked && !j.resumed {
+				// the compaction job goes on with its trailing obsolete-file pass and returns
+				j.inWindow = true
+				e.resumeTrail(j)
+				e.classes["window-job-cleanup-inside-commit"]++
+				e.noteCleanupInWindow(p, n.fam, "job-cleanup")
+				continue
+			}
+			// the guard of the job said "nothing to compact" (or the job is done): the bare pass instead
+			e.classes["window-job-cleanup-replaced-by-bare-pass"]++
+		}
+		if f, ok := e.fams[n.fam]; ok {
+			kv.VerifDeleteObsoleteFiles(f)
+			e.classes["window-nested-deleteObsolete"]++
+			e.noteCleanupInWindow(p, n.fam, "deleteObsolete")
+		}
+	}
+}
+
+func (e *env) noteCleanupInWindow(p *windowPlan, fam, what string) {
+	e.histLabels["hist-obsolete-pass-inside-commit-window"] = true
+	if fam != e.ops[len(e.ops)-1].Family {
+		e.classes["window-"+what+"-other-family"]++
+		return
+	}
+	e.classes["window-"+what+"-same-family"]++
+	if p.hasTable {
+		// the neighbourhood of seeded C01f: table closed, record being logged, version not installed
+		e.classes["window-"+what+"-same-family-commit-has-new-table"]++
+		e.histLabels["hist-obsolete-pass-of-committing-family-inside-window"] = true
+	}
+}
+
+// startTrail starts the compaction job of the plan and returns when it is parked or done.
+func (e *env) startTrail(j *trailJob) {
+	j.parked, j.resume, j.done = make(chan struct{}), make(chan struct{}), make(chan struct{})
+	j.armed.Store(true)
+	e.lastTrail = j
+	e.trail.Store(j)
+	f := e.fams[j.fam]
+	go func() {
+		defer close(j.done)
+		j.ran, j.err = kv.VerifCompactSync(f, j.force)
 	}()
-	<-started // the wait below does not include the time the scheduler needs to start the helper
-	timer := time.NewTimer(windowWait)
-	defer timer.Stop()
 	select {
-	case <-p.done:
-		p.inside = true
-	case <-timer.C:
+	case <-j.parked:
+		j.isParked = true
+	case <-j.done:
+		j.armed.Store(false)
+	}
+}
+
+func (e *env) resumeTrail(j *trailJob) {
+	if j.isParked && !j.resumed {
+		j.resumed = true
+		close(j.resume)
+	}
+	<-j.done
+}
+
+// finishTrail: the job has returned before the history goes on.
+func (e *env) finishTrail(j *trailJob) {
+	if j == nil || j.done == nil {
+		return
+	}
+	e.resumeTrail(j)
+	e.trail.Store(nil)
+	e.classes["window-job-planned"]++
+	if j.ran {
+		e.classes["window-job-compaction-ran"]++
+		e.commitsInSession++
+	} else {
+		e.classes["window-job-nothing-to-compact"]++
+	}
+	if !j.isParked {
+		if j.ran {
+			e.classes["window-job-finished-before-commit(no "+j.parkOp+" seam)"]++
+		}
+		return
+	}
+	e.classes["window-job-parked@"+j.parkOp]++
+	switch {
+	case j.inWindow:
+		e.classes["window-job-resumed-inside-commit"]++
+		e.histLabels["hist-compaction-cleanup-inside-commit-window"] = true
+	case j.parkOp == "tableCreate":
+		e.classes["window-job-compaction-commits-after-flush-commit"]++
+		e.histLabels["hist-compaction-across-flush-commit"] = true
+	default:
+		e.classes["window-job-resumed-after-commit"]++
 	}
 }
 
@@ -354,16 +550,22 @@ func (e *env) finishWindow(p *windowPlan) {
 	if p == nil {
 		return
 	}
+	defer e.finishTrail(p.trail)
 	e.classes["window-planned"]++
 	if !p.fired {
 		e.classes["window-not-reached(empty edit log)"]++
 		return
 	}
+	e.classes["window-fired"]++
+	e.classes["window-fired@"+p.seamOp]++
+	if p.done == nil {
+		e.classes["window-fired-without-writers"]++
+		return
+	}
 	<-p.done
 	e.window.Store(false)
 	e.pending = append(e.pending, p.opened...)
-	e.classes["window-fired"]++
-	e.classes["window-fired@"+p.seamOp]++
+	e.classes["window-fired-with-writers"]++
 	e.classes["window-writers-opened"] += len(p.opened)
 	if len(p.opened) >= 2 {
 		e.classes["window-fired-writers>=2"]++
@@ -428,19 +630,74 @@ func (e *env) drawSpec() writerSpec {
 	return writerSpec{id: e.writerSeq, fam: fam, keys: keys, modes: modes, atom: e.atom}
 }
 
-// drawWindow decides whether (and where) further writers are opened inside the next commit.
-func (e *env) drawWindow(room int) *windowPlan {
-	if room <= 0 || rapid.IntRange(0, 3).Draw(e.t, "window") != 0 {
+// drawWindow decides whether (and where) other jobs of the store run inside the next commit, and which.
+// fam is the family of the commit, hasTable says whether the commit brings a new table, room is the
+// number of writers that may still be opened.
+func (e *env) drawWindow(room int, fam string, hasTable bool) *windowPlan {
+	if rapid.IntRange(0, 2).Draw(e.t, "window") != 0 {
 		return nil
 	}
-	n := rapid.SampledFrom([]int{1, 2, 2, 3}).Draw(e.t, "windowWriters")
+	seam := rapid.IntRange(0, 3).Draw(e.t, "windowSeam")
+	p := &windowPlan{seamOp: []string{"manifestWrite", "manifestSync"}[seam/2], before: seam%2 == 0, hasTable: hasTable}
+	n := rapid.SampledFrom([]int{0, 1, 2, 2, 3}).Draw(e.t, "windowWriters")
 	if n > room {
 		n = room
 	}
-	seam := rapid.IntRange(0, 3).Draw(e.t, "windowSeam")
-	p := &windowPlan{seamOp: []string{"manifestWrite", "manifestSync"}[seam/2], before: seam%2 == 0}
+	if n < 0 {
+		n = 0
+	}
 	for i := 0; i < n; i++ {
 		p.specs = append(p.specs, e.drawSpec())
+	}
+	// families of the jobs: the committing family is the interesting one
+	pool := append([]string{fam, fam}, e.famNames...)
+	nNested := rapid.SampledFrom([]int{0, 1, 1, 2}).Draw(e.t, "windowNested")
+	for i := 0; i < nNested; i++ {
+		kind := rapid.SampledFrom([]string{"deleteObsolete", "deleteObsolete", "deleteObsolete", "cacheCleanup"}).Draw(e.t, "nestedKind")
+		nf := rapid.SampledFrom(pool).Draw(e.t, "nestedFamily")
+		if kind == "cacheCleanup" {
+			nf = ""
+		}
+		p.nested = append(p.nested, nestedOp{kind: kind, fam: nf, late: rapid.Bool().Draw(e.t, "nestedLate")})
+	}
+	// families whose level 0 holds >= 2 tables: the guard of Family.Compact lets a job start
+	var busy []string
+	for _, n := range e.famNames {
+		snap := e.fams[n].GetSnapshot()
+		if snap.GetCurrent().NumberOfFilesInLevel(0) >= 2 {
+			busy = append(busy, n)
+			if n == fam {
+				busy = append(busy, n)
+			}
+		}
+		snap.Close()
+	}
+	jobOdds := 2 // 1 in 3
+	if len(busy) > 0 {
+		jobOdds = 1 // 1 in 2
+	}
+	if rapid.IntRange(0, jobOdds).Draw(e.t, "windowJob") == 0 {
+		j := &trailJob{fam: rapid.SampledFrom(pool).Draw(e.t, "jobFamily"), force: rapid.Bool().Draw(e.t, "jobForce")}
+		if len(busy) > 0 && rapid.IntRange(0, 3).Draw(e.t, "jobBusyFamily") != 0 {
+			j.fam, j.force = rapid.SampledFrom(busy).Draw(e.t, "jobFamily"), true
+		}
+		switch rapid.IntRange(0, 6).Draw(e.t, "jobPark") {
+		case 0:
+			j.parkOp, j.parkBefore, j.atSeam = "listDir", true, true
+		case 1, 2:
+			j.parkOp, j.parkBefore, j.atSeam = "listDir", false, true
+		case 3:
+			j.parkOp, j.parkBefore = "listDir", rapid.Bool().Draw(e.t, "jobParkBefore")
+		default:
+			j.parkOp, j.parkBefore = "tableCreate", rapid.Bool().Draw(e.t, "jobParkBefore")
+		}
+		p.trail = j
+		if j.atSeam {
+			p.nested = append(p.nested, nestedOp{kind: "jobCleanup", fam: j.fam, late: rapid.Bool().Draw(e.t, "nestedLate")})
+		}
+	}
+	if len(p.specs) == 0 && len(p.nested) == 0 && p.trail == nil {
+		p.nested = append(p.nested, nestedOp{kind: "deleteObsolete", fam: fam})
 	}
 	return p
 }
@@ -492,6 +749,11 @@ func (e *env) openWriterRaw(s writerSpec) (*writer, error) {
 
 // commitTail runs a flusher commit with an optional window inside it.
 func (e *env) commitTail(fl kv.Flusher, plan *windowPlan) error {
+	if plan != nil && plan.trail != nil {
+		// the compaction job runs (alone) up to its park point; the seam of the plan only belongs to
+		// the flusher commit, so the plan is armed afterwards
+		e.startTrail(plan.trail)
+	}
 	e.plan, e.lastPlan = plan, plan
 	err := fl.Commit()
 	e.finishWindow(plan)
@@ -502,6 +764,9 @@ func (e *env) commitTail(fl kv.Flusher, plan *windowPlan) error {
 func (e *env) windowError(plan *windowPlan) {
 	if plan != nil && plan.err != nil {
 		e.fatalf("opening a writer concurrently with a commit failed: %v", plan.err)
+	}
+	if plan != nil && plan.trail != nil && plan.trail.err != nil {
+		e.fatalf("compaction of family %s running next to a flusher commit failed: %v", plan.trail.fam, plan.trail.err)
 	}
 }
 
@@ -528,7 +793,7 @@ func (e *env) opFlush() {
 	}
 	e.atom++
 	atom := e.atom
-	plan := e.drawWindow(maxPending - len(e.pending))
+	plan := e.drawWindow(maxPending-len(e.pending), name, len(keys) > 0)
 	nest := len(keys) > 0 && rapid.IntRange(0, 3).Draw(e.t, "cleanupAtTableCreate") == 0
 	e.begin("flush", name, fmt.Sprintf("keys=%v atom=%d seq=%v/%d:%d window=%s nestedCleanup=%v", keys, atom, useSeq, leader, seq, plan, nest))
 	fl := f.NewFlusher()
@@ -629,7 +894,7 @@ func (e *env) opCommitWriter() {
 		leader = int32(rapid.IntRange(1, 2).Draw(e.t, "leader"))
 		delta = int64(rapid.IntRange(1, 5).Draw(e.t, "seqDelta"))
 	}
-	plan := e.drawWindow(maxPending - (len(e.pending) - 1))
+	plan := e.drawWindow(maxPending-(len(e.pending)-1), e.pending[idx].fam, true)
 	e.commitWriter(idx, useSeq, leader, delta, plan)
 }
 
@@ -755,6 +1020,20 @@ func (e *env) opReopen() {
 
 func (e *env) checkLive() {
 	for _, n := range e.famNames {
+		// a table the current version references is the only copy of committed flushes: it is a file
+		// of the family directory (checked first: the message names the file)
+		snap0 := e.fams[n].GetSnapshot()
+		var missing []string
+		for _, fm := range snap0.GetCurrent().GetAllFiles() {
+			name := filepath.Join(e.storePath, n, version.Table(fm.GetFileNumber()))
+			if _, err := os.Stat(name); err != nil {
+				missing = append(missing, fmt.Sprintf("%s/%s (%v)", n, version.Table(fm.GetFileNumber()), err))
+			}
+		}
+		snap0.Close()
+		if len(missing) > 0 {
+			e.fatalf("live store, family %s: the current version references tables that are not in the family directory: %v", n, missing)
+		}
 		got, err := kvsim.ReadFamily(e.fams[n], e.universe)
 		if err != nil {
 			e.fatalf("live store, family %s: %v", n, err)
@@ -1029,6 +1308,13 @@ func runHistory(t *rapid.T, thorough bool) {
 	table.VerifSetFSHook(table.VerifFSHook(e.hook))
 	defer func() {
 		// no goroutine and no flusher outlives the case (a store waits for its flushers when it closes)
+		if j := e.lastTrail; j != nil && j.done != nil {
+			if j.isParked && !j.resumed {
+				j.resumed = true
+				close(j.resume)
+			}
+			<-j.done
+		}
 		if p := e.lastPlan; p != nil && p.done != nil {
 			<-p.done
 			for _, w := range p.opened {
